@@ -91,6 +91,12 @@ def _decoder_not_reused(kind_i, p1, fr2, b2, cuts, raw2=False):
     return c08._coded_then_plain(kind_i, p1, fr2, b2, cuts, raw2)
 
 
+def _coded_overrun(kind_i, payload, cuts, overrun):
+    """A coded, length-delimited body followed by surplus bytes, through Stream.read_body (harness shared with C08)."""
+    from harness import c08
+    return c08._content_coding(kind_i, payload, 0, cuts, False, overrun)
+
+
 def _split_equals_oneshot_real(kind_i, b1, b2, two_blocks, c1, c2, c3):
     return _split_equals_oneshot(kind_i, b1, b2, two_blocks, c1, c2, c3, real=True)
 
@@ -238,6 +244,15 @@ HARNESSES = [
       funcs=['wpull/protocol/http/stream.py:Stream._setup_decompressor', 'wpull/protocol/http/stream.py:Stream.read_body'],
       doc='identity bodies: after a gzip / deflate coded response the next, identity, response on the same Stream is delivered verbatim '
           '(the finished decoder of the first body is not fed the second)'),
+    H('coded_overrun', '_coded_overrun', 'kind_i: int, payload: bytes, cuts: List[int], overrun: int',
+      pre={'quick': ['0 <= kind_i <= 2 and len(payload) <= 1 and len(cuts) <= 1 and 1 <= overrun <= 2'],
+           'thorough': ['0 <= kind_i <= 2 and len(payload) <= 3 and len(cuts) <= 3 and 1 <= overrun <= 2']},
+      parts=[{'tag': k, 'fix': {'kind_i': str(i)}} for i, k in enumerate(['gzip', 'zlib', 'raw'])],
+      timeout={'quick': 250, 'thorough': 1200}, samples=[(0, b'a', [], 2), (2, b'a', [3], 1)], need=['decoded'],
+      funcs=['wpull/protocol/http/stream.py:Stream._read_body_by_length', 'wpull/protocol/http/stream.py:Stream._decompress_data',
+             'wpull/protocol/http/stream.py:Stream.close'],
+      doc='a gzip / deflate body delimited by Content-Length and followed by 1-2 surplus bytes (the last read carries more than the '
+          'body): the body proper is still decoded completely - the overrun handling must not cut the decoder off'),
     H('empty_piece', '_empty_piece', 'kind_i: int, b1: bytes, at: int, c1: int',
       pre=['0 <= kind_i <= 2 and len(b1) <= 1 and 0 <= at <= 2 and 0 <= c1 <= 12'],
       parts=[{'tag': k, 'fix': {'kind_i': str(i)}} for i, k in enumerate(_KINDS)],
